@@ -14,7 +14,11 @@ class SelectResults(object):
         self.sourceClass = sourceClass
         if clause is None or isinstance(clause, str) and clause == 'all':
             clause = sqlbuilder.SQLTrueClause
-        if not isinstance(clause, sqlbuilder.SQLExpression):
+        if isinstance(clause, string_type):
+            # A condition given as SQL text stays one operand when
+            # filter() combines it with another condition:
+            clause = sqlbuilder.SQLConstant('(%s)' % clause)
+        elif not isinstance(clause, sqlbuilder.SQLExpression):
             clause = sqlbuilder.SQLConstant(clause)
         self.clause = clause
         self.ops = ops
